@@ -274,6 +274,28 @@ static void do_dump(int h, const char *callname)
 	    rv = mpq_QSget_param_EGlpNum(p, QS_PARAM_OBJLLIM, &q); if (!rv) J_q("objllim", q);
 	    rv = mpq_QSget_param_EGlpNum(p, QS_PARAM_SIMPLEX_MAX_TIME, &q); if (!rv) J_q("maxtime", q); mpq_clear(q); }
 	  jraw("}"); jfirst = 0; }
+	/* the raw column store (ILLmatrix) behind all of the above: spec/ColStore.tla is evaluated on it */
+	if (p->qslp && p->qslp->A.matsize - p->qslp->A.matfree <= 20000 && p->qslp->A.matfree >= 0 && p->qslp->A.matfree <= p->qslp->A.matsize) {
+	  mpq_ILLmatrix *A = &p->qslp->A; int used = A->matsize - A->matfree, k, run;
+	  jkey("store"); jraw("{"); jfirst = 1;
+	  J_int("cap", A->matsize); J_int("free", A->matfree); J_int("nrows", A->matrows); J_int("ncols", A->matcols);
+	  J_int("nstruct", p->qslp->nstruct); J_int("lprows", p->qslp->nrows);
+	  J_iarr("beg", A->matbeg, A->matcols); J_iarr("cnt", A->matcnt, A->matcols);
+	  J_iarr("ind", A->matind, used);
+	  jkey("val"); jraw("["); for (k = 0; k < used; k++) { if (k) jraw(","); if (A->matind[k] == -1) jraw("\"0\""); else jqv(A->matval[k]); } jraw("]");
+	  jkey("tail"); jraw("[");           /* run-length encoded free tail: normally one run of -1 */
+	  for (k = used, run = 0; k < A->matsize; ) { int v = A->matind[k], c = 0; while (k < A->matsize && A->matind[k] == v) { k++; c++; }
+	    if (run++) jraw(","); jraw("{\"v\":"); jintv(v); jraw(",\"c\":"); jintv(c); jraw("}"); if (run > 50) break; }
+	  jraw("]");
+	  J_iarr("structmap", p->qslp->structmap, p->qslp->nstruct); J_iarr("rowmap", p->qslp->rowmap, p->qslp->nrows);
+	  /* bounds of the logical columns (the standard form the simplex works on) */
+	  { int i2, okm = 1; for (i2 = 0; i2 < p->qslp->nrows; i2++) if (p->qslp->rowmap[i2] < 0 || p->qslp->rowmap[i2] >= A->matcols) okm = 0;
+	    if (okm && p->qslp->lower && p->qslp->upper) {
+	      jkey("lglo"); jraw("["); for (i2 = 0; i2 < p->qslp->nrows; i2++) { if (i2) jraw(","); jqv(p->qslp->lower[p->qslp->rowmap[i2]]); } jraw("]");
+	      jkey("lgup"); jraw("["); for (i2 = 0; i2 < p->qslp->nrows; i2++) { if (i2) jraw(","); jqv(p->qslp->upper[p->qslp->rowmap[i2]]); } jraw("]");
+	    } }
+	  jraw("}"); jfirst = 0;
+	}
 	disarm();
 	ev_end(p);
 }
